@@ -328,7 +328,8 @@ def run(ctx, widen=False):
             for j, (g, ek) in enumerate(zip(got, traces[k])):
                 if bool(int(g.lstrip("E").split(".")[1]) & 1) != ek:
                     from props.C14 import has_mixed_nested_op as _mno
-                    _fail(ctx, "calls-mixed-nested-op" if _mno(cmeta[k], any_op=True) else "calls-expecting-key", "after call %d (%s) of a well-formed list expecting_key() = %s, the calls made so far say %s" % (j, c.split("\t")[2].split(";")[j][:40], not ek, ek), [c], [o], str(ek))
+                    from props.C14 import has_mixed_container_then_more as _mcm
+                    _fail(ctx, "calls-mixed-nested-op" if _mno(cmeta[k], any_op=True) else ("calls-mixed-mode-lost" if _mcm(cmeta[k]) else "calls-expecting-key"), "after call %d (%s) of a well-formed list expecting_key() = %s, the calls made so far say %s" % (j, c.split("\t")[2].split(";")[j][:40], not ek, ek), [c], [o], str(ek))
                     break
         last = o.split(" ")[1].split(",")[-1]
         if last != "0.1":
@@ -346,8 +347,8 @@ def run(ctx, widen=False):
             continue
         exp = "ok 0 " + docgen.flatten(d)
         if o != exp:
-            from props.C14 import has_glued_bang, has_mixed_nested_op
-            key = "calls-mixed-nested-op" if has_mixed_nested_op(d, any_op=True) else ("calls-glued-bang" if has_glued_bang(d) else "calls-reparse")
+            from props.C14 import has_glued_bang, has_mixed_nested_op, has_mixed_container_then_more
+            key = "calls-mixed-nested-op" if has_mixed_nested_op(d, any_op=True) else ("calls-mixed-mode-lost" if has_mixed_container_then_more(d) else ("calls-glued-bang" if has_glued_bang(d) else "calls-reparse"))
             _fail(ctx, key, "calls describe %s but the output parses to %s" % (exp[:300], o[:300]), [pc[k], ccases[k]], [o], exp)
         else:
             ctx.count("calls_reparse_ok")
